@@ -47,12 +47,13 @@ def blocker (s : State) (r : TxM State) : Res × State :=
   | .error m => if m = HANG then (.hang, s) else (.panic, s)
 
 /-- a staking message: committed state is atomic, the package variable is not -/
-def stakeStep (s : State) (r : Dec × TxM State) : Res × State :=
+def stakeStep (s : State) (r : Dec × TxM State) : Res × Sys :=
   match r.2 with
-  | .ok s' => (.ok, s')
-  | .error _ => (.err, { s with global := r.1 })
+  | .ok s' => (.ok, ⟨s', r.1⟩)
+  | .error _ => (.err, ⟨s, r.1⟩)
 
-def step (e : Env) (s : State) : Op → Res × State
+/-- every operation except the staking messages: a function of the committed state alone -/
+def stepC (e : Env) (s : State) : Op → Res × State
   | .advance to seed => (.ok, { s with h := to, seed := seed })
   | .begin_ => blocker s (nodeBeginBlock e s)
   | .end_ => blocker s (endBlock e s)
@@ -69,9 +70,17 @@ def step (e : Env) (s : State) : Op → Res × State
   | .renew c p sv sd du t data => atomic s ((saoRenew e s c p sv sd du t data).map (·.1))
   | .migrate c p data => atomic s (saoMigrate s c p data)
   | .perm c p ow d ro rw sv => atomic s (saoPermission s c p ow d ro rw sv)
-  | .delegate c v a => stakeStep s (stakeDelegate e s c v a)
-  | .undelegate c v a => stakeStep s (stakeUndelegate e s c v a)
-  | .restart => (.ok, { s with global := 0 })
+  | .delegate _ _ _ => (.ok, s)
+  | .undelegate _ _ _ => (.ok, s)
+  | .restart => (.ok, s)
   | .unmodelled _ => (.ok, s)
+
+/-- one operation on the whole system: committed state + package variable -/
+def step (e : Env) (y : Sys) (op : Op) : Res × Sys :=
+  match op with
+  | .delegate c v a => stakeStep y.st (stakeDelegate e y.st y.global c v a)
+  | .undelegate c v a => stakeStep y.st (stakeUndelegate e y.st y.global c v a)
+  | .restart => (.ok, ⟨y.st, 0⟩)
+  | op => ((stepC e y.st op).1, ⟨(stepC e y.st op).2, y.global⟩)
 
 end SaoVerif
